@@ -321,6 +321,124 @@ def run_gauss(c, rec):
         sp_ = sp_.toarray() if hasattr(sp_, "toarray") else np.asarray(sp_)
         require(close(sp_.T @ sp_, np.linalg.inv(S), 1e-6), "sqrtprec^T sqrtprec is not the precision of the specified Gaussian")
         require(close(float(np.asarray(d.logdet).reshape(-1)[0]), float(np.linalg.slogdet(S)[1]), 1e-7), "logdet is not log det(Sigma)")
+        # the covariance the cdf is computed from, and the cdf itself (scipy's Genz integration: loose tolerance)
+        cov = must(lambda: d.compute_cov(), "compute_cov")
+        cov = cov.toarray() if hasattr(cov, "toarray") else np.asarray(cov, dtype=float)
+        require(close(cov, S, 1e-6), "compute_cov() is not the covariance of the specified Gaussian", got=cov, want=S)
+        if n <= 3 and hasattr(d, "cdf"):
+            refused, gc = refuses(lambda: d.cdf(x.copy()))  # a scalar-stored mean is refused by scipy: no value, no claim
+            if not refused:
+                wc = float(sps.multivariate_normal(mu, S).cdf(x))
+                require(abs(_f(gc) - wc) <= 2e-3, "Gaussian.cdf is not the integral of the density", got=_f(gc), want=wc)
+            else:
+                rec.count("cdf_refused")
+    finally:
+        cuqi.config.MIN_DIM_SPARSE = old
+
+
+# ----------------------------------------------------------------------------- parameters re-assigned on a live object
+
+@st.composite
+def reassign_cases(draw, tier="quick"):
+    kind = draw(st.sampled_from(["family", "family", "gaussian", "gmrf"]))
+    if kind == "family":
+        s1 = draw(dists.family_spec(max_dim=4, modes=("vector", "scalar")))
+        s2 = dict(s1)
+        keys = [k for k in s1 if k in ("mean", "std", "location", "scale", "shape_", "rate", "alpha", "beta", "low", "width", "var")
+                and isinstance(s1[k], list)]
+        if s1["fam"] == "Laplace":
+            keys = [k for k in keys if k != "scale"] + ["scale"]
+        nchange = draw(st.integers(1, len(keys)))
+        for k in draw(st.permutations(keys))[:nchange]:
+            v = list(s1[k])
+            idx = draw(st.lists(st.integers(0, len(v) - 1), min_size=1, max_size=len(v), unique=True))  # only some components move
+            for i in idx:
+                v[i] = float(draw(gen.logpos(-1, 1))) if k in ("std", "scale", "shape_", "rate", "alpha", "beta", "width", "var") else float(draw(gen.fl(-3, 3)))
+            s2[k] = v
+        return {"kind": kind, "s1": s1, "s2": s2, "warm": draw(st.booleans())}
+    if kind == "gaussian":
+        g = draw(gauss_cases(tier))
+        g["true_size"] = False
+        n = g["n"]
+        g2 = dict(g)
+        g2["var"] = draw(st.lists(gen.logpos(-1.0, 1.0), min_size=n, max_size=n))
+        if draw(st.booleans()):
+            m2 = list(g["mean"])
+            m2[0] = draw(gen.fl(-3, 3))
+            g2["mean"] = m2
+            g2["mean_kind"] = g["mean_kind"] = "vector"
+        return {"kind": kind, "s1": g, "s2": g2, "warm": draw(st.booleans())}
+    m = draw(c20.gmrf_cases(tier))
+    m["mean"] = draw(gen.vec(m["n"] if m["pd"] == 1 else m["n"] ** 2, -2, 2))
+    m2 = dict(m)
+    mm = list(m["mean"])
+    mm[0] = draw(gen.fl(-3, 3))
+    m2["mean"] = mm
+    m2["prec"] = float(draw(gen.logpos(-2, 2)))
+    return {"kind": kind, "s1": m, "s2": m2, "warm": draw(st.booleans())}
+
+
+def _build_any(kind, s):
+    import cuqi
+    if kind == "family":
+        return dists.build(s)[0]
+    if kind == "gaussian":
+        n = s["n"]
+        mean = {"zero": 0.0, "scalar": float(s["mean"][0]), "vector": A(s["mean"])}[s["mean_kind"]]
+        kw = {s["param"]: gauss_arg(s)}
+        if s["mean_kind"] != "vector":
+            kw["geometry"] = n
+        return cuqi.distribution.Gaussian(mean, **kw)
+    return cuqi.distribution.GMRF(A(s["mean"]), s["prec"], bc_type=s["bc"], order=s["order"], geometry=c20.make_geom(s["pd"], s["n"]))
+
+
+def run_reassign(c, rec):
+    """assigning new parameter values to a live distribution gives the distribution with those parameters"""
+    import cuqi
+    kind, s1, s2 = c["kind"], c["s1"], c["s2"]
+    fam = s1.get("fam", kind)
+    tags = {"kind": kind, "fam": fam, "warm": c["warm"]}
+    if kind == "gmrf":
+        tags.update(bc=s1["bc"], order=s1["order"])
+    if kind == "gaussian":
+        tags.update(param=s1["param"], structure=s1["structure"])
+        if s1["param"] in ("sqrtcov", "sqrtprec") and s1["structure"] in ("dense", "sparse"):
+            tags["sqrt_kind"] = s1["sqrt_kind"]
+    if rec.classify(tags, True):
+        return
+    old = cuqi.config.MIN_DIM_SPARSE
+    try:
+        if kind == "gaussian" and s1["sparse_switch"] == "above":
+            cuqi.config.MIN_DIM_SPARSE = 1
+        refused, d1 = refuses(lambda: _build_any(kind, s1))
+        refused2, d2 = refuses(lambda: _build_any(kind, s2))
+        if refused or refused2:
+            rec.count("construction_refused")
+            return
+        x = dists.Reference(s2).inside(s2["raw"]) if kind == "family" else A(s2["x"])
+        if c["warm"]:  # exercise caches before the assignment
+            refuses(lambda: d1.logd(x.copy()))
+            refuses(lambda: d1.gradient(x.copy()))
+            if hasattr(d1, "cdf"):
+                refuses(lambda: d1.cdf(x.copy()))
+        for name in [v for v in d1.get_mutable_variables() if not v.startswith("_")]:  # the public parameters only
+            refused, _ = refuses(lambda: setattr(d1, name, getattr(d2, name)))
+            if refused:
+                rec.count("assignment_refused")
+                return
+        refused, want = refuses(lambda: d2.logpdf(x.copy()))
+        if refused or not np.all(np.isfinite(np.asarray(want, dtype=float))):
+            rec.count("fresh_object_refuses_or_not_finite")
+            return
+        got = must(lambda: d1.logpdf(x.copy()), "logpdf after re-assigning the parameters")
+        require(close(_f(got), _f(want), 1e-10), f"{fam}: after assigning new parameter values the log-density is not that of the distribution with those parameters",
+                got=_f(got), want=_f(want))
+        if kind == "family" and dists.Reference(s2).normalised():
+            require(close(_f(got), dists.Reference(s2).logpdf(x), 1e-9), f"{fam}: re-assigned distribution differs from the reference density")
+        if kind == "gaussian":
+            dn = lambda M: M.toarray() if hasattr(M, "toarray") else np.asarray(M, dtype=float)
+            cov1 = dn(must(lambda: d1.compute_cov(), "compute_cov"))
+            require(close(cov1, dn(d2.compute_cov()), 1e-8), "Gaussian.compute_cov after re-assignment is not the covariance of the new parameters")
     finally:
         cuqi.config.MIN_DIM_SPARSE = old
 
@@ -335,6 +453,7 @@ SUBCHECKS = [
     SubCheck("C04/quadrature", run_quad, strategy=quad_cases, n={"quick": 240, "thorough": 4000}, shards={"quick": 4, "thorough": 16}),
     SubCheck("C04/gaussian_forms", run_gauss, strategy=gauss_cases, n={"quick": 2000, "thorough": 40000},
              shards={"quick": 4, "thorough": 16}),
+    SubCheck("C04/reassign", run_reassign, strategy=reassign_cases, n={"quick": 800, "thorough": 15000}, shards={"quick": 4, "thorough": 16}),
     SubCheck("C04/gmrf", c20.run_gmrf, strategy=c20.gmrf_cases, n={"quick": 400, "thorough": 8000}, shards={"quick": 2, "thorough": 8}),
     SubCheck("C04/lmrf_cmrf", c20.run_lc, strategy=c20.lc_cases, n={"quick": 400, "thorough": 8000}, shards={"quick": 2, "thorough": 8}),
 ]
